@@ -10,12 +10,8 @@ HERE = os.path.dirname(os.path.dirname(os.path.abspath(__file__)))
 sys.path.insert(0, HERE)
 
 NA = {
-    "C15": "reflection correctness is a property of backend catalog output and per-dialect text parsing; no live PostgreSQL/MariaDB offline and no table relation that is necessary",
-    "C17": "closure-variable classification in lambdas is decided at run time from live values/code objects; the only structure is the algorithm itself",
     "C30": "equality of database rows with an object graph after histories is a heap/backend relation; its structural parts are claimed under C31, C32, C34, C48",
-    "C40": "equality of query results across loader strategies quantifies over rows and object graphs",
     "C41": "ORM-vs-Core result correspondence quantifies over rows",
-    "C42": "polymorphic identity of loaded rows quantifies over data and discriminator values",
 }
 
 BASELINE = "cd /repo && /venv/bin/python -m pytest -ra -q -p no:cacheprovider --timeout=900 --continue-on-collection-errors"
